@@ -353,6 +353,9 @@ func (x *hW) checkEntity(i int) {
 	}
 	vAssert(mask.TotalBitsSet() == cnt, "Mask holds no component outside the history")
 	vAssert(len(ids) == cnt, "Ids holds no component outside the history")
+	for k := range ids { // the result is a copy the caller may manipulate
+		ids[k] = ID{}
+	}
 	if r := hRelOf(x.set[i]); r >= 0 {
 		vAssert(w.Relations().Get(e, x.id[r]) == x.tgt[i], "relation target is the last assigned target")
 	}
@@ -483,6 +486,9 @@ func (x *hW) checkQuery(flt Filter, f int, t Entity) {
 		vAssert(len(qids) == qm.TotalBitsSet(), "query Ids lists exactly the components of the entity")
 		for _, id := range qids {
 			vAssert(qm.Get(id), "query Ids lists only components of the entity")
+		}
+		for k := range qids { // the result is documented as a copy the caller may manipulate
+			qids[k] = ID{}
 		}
 		visited++
 	}
